@@ -19,8 +19,9 @@ import gens
 import lit
 
 CAP = {('C', 0): 4, ('N', 0): 3, ('O', 0): 2, ('S', 0): 2, ('F', 0): 1, ('Cl', 0): 1, ('N', 1): 4, ('O', -1): 1,
-       ('Si', 0): 4, ('P', 0): 3, ('B', 0): 3}
-SYM = {1: '', 2: '=', 3: '#'}
+       ('Si', 0): 4, ('P', 0): 3, ('B', 0): 3, ('Na', 1): 0, ('K', 1): 0, ('Li', 1): 0}
+# order 0 (written '.'): an ionic contact / virtual edge; it is a bond of the described graph like any other
+SYM = {0: '.', 1: '', 2: '=', 3: '#'}
 
 
 def label(i):
@@ -33,7 +34,7 @@ def label(i):
 
 
 # ------------------------------------------------------------------------------ molecules
-def rand_molecule(rng, aromatic_p=0.45):
+def rand_molecule(rng, aromatic_p=0.45, ion_p=0.22):
     """atoms: list of dicts (el, q, arom); bonds: {(a, b): order} with a < b; orders 1, 2, 3 or 1.5"""
     atoms, bonds = [], {}
     used = []           # valence used, in half units
@@ -125,12 +126,47 @@ def rand_molecule(rng, aromatic_p=0.45):
                     break
             if done:
                 break
+    # ionic contacts: a cation joined by an order-0 bond ('.') to an anionic oxygen (an existing O- or a new one)
+    if rng.random() < ion_p:
+        for _ in range(rng.choice([1, 1, 2])):
+            oxy = [a for a in range(len(atoms)) if (atoms[a]['el'], atoms[a]['q']) == ('O', -1)
+                   and not any(bonds[e] == 0 for e in bonds if a in e)]
+            if oxy and rng.random() < 0.5:
+                o_ = rng.choice(oxy)
+            else:
+                cands = [a for a in range(len(atoms)) if spare(a) >= 2 and atoms[a]['el'] in ('C', 'Si', 'S', 'N')
+                         and atoms[a]['q'] == 0]
+                if not cands:
+                    break
+                p = rng.choice(cands)
+                o_ = add_atom('O', -1)
+                add_bond(p, o_, 1)
+            cat = add_atom(rng.choice(['Na', 'Na', 'K', 'Li']), 1)
+            add_bond(o_, cat, 0)
     # no multiple bonds inside rings (ring-closure bond symbols are outside the generator's syntax subset)
     G = nx.Graph(list(bonds))
     bridges = {(min(a, b), max(a, b)) for a, b in nx.bridges(G)} if len(G) else set()
     for e, o in list(bonds.items()):
         if o in (2, 3) and e not in bridges:
             bonds[e] = 1
+    return atoms, bonds
+
+
+BEADS = ['P', 'Q', 'R', 'S', 'T', 'U', 'W']
+
+
+def rand_bead_graph(rng):
+    """a tree of coarse beads (resolved with last_all_atom=False); edges of order 1 or 0 ('.', a virtual edge)"""
+    n = rng.randint(3, 8)
+    atoms = [{'el': rng.choice(BEADS), 'q': 0, 'arom': False, 'bead': True} for _ in range(n)]
+    bonds = {}
+    zero = set()        # every bead touches at most one order-0 edge
+    for b in range(1, n):
+        a = rng.randrange(max(0, b - 3), b)
+        o = 0 if (rng.random() < 0.35 and a not in zero) else 1
+        if o == 0:
+            zero.update((a, b))
+        bonds[(a, b)] = o
     return atoms, bonds
 
 
@@ -149,6 +185,8 @@ def rand_partition(rng, atoms, bonds, k):
 
 # ------------------------------------------------------------------------------ fragment SMILES
 def atom_token(at):
+    if at.get('bead'):
+        return '[#%s]' % at['el']
     el = at['el'].lower() if at['arom'] else at['el']
     if el == 'Si':
         return '[Si]'
@@ -166,6 +204,7 @@ def write_fragment(rng, nodes, edges, desc):
         adj[b].append((a, o))
     for a in adj:
         rng.shuffle(adj[a])
+        adj[a].sort(key=lambda bo: bo[1] == 0)      # an order-0 neighbour last: '.' is not written first in a branch
     root = rng.choice(sorted(nodes))
     seen, order, tree, closures = set(), [], {a: [] for a in nodes}, []
 
@@ -350,9 +389,14 @@ def describe(rng, atoms, bonds, part, share, mode):
     return {'disjoint': d, 'shared': sh}
 
 
-def gen_case(rng, force=None):
+def gen_case(rng, force=None, coarse=None, ions=None):
+    if coarse is None:
+        coarse = rng.random() < 0.12
     for _ in range(200):
-        atoms, bonds = rand_molecule(rng)
+        if coarse:
+            atoms, bonds = rand_bead_graph(rng)
+        else:
+            atoms, bonds = rand_molecule(rng, ion_p=(0.22 if ions is None else ions))
         if len(atoms) < 3:
             continue
         k = rng.randint(2, min(4, len(atoms)))
@@ -399,15 +443,22 @@ def gen_case(rng, force=None):
             per_frag[part[u]] = per_frag.get(part[u], set()) | {s}
         if any(len(v) >= 2 for v in per_frag.values()):
             tags.append('several-per-fragment')
-        return {'shared': both['shared'], 'disjoint': both['disjoint'], 'mode': mode,
+        zero = [e for e, o in bonds.items() if o == 0]
+        if zero:
+            tags.append('order0-at-shared' if any(s in e for e in zero for s in share.values()) else 'order0')
+        case = {'shared': both['shared'], 'disjoint': both['disjoint'], 'mode': mode,
                 'cls': '+'.join(tags) if tags else 'single-share'}
+        if coarse:
+            case['coarse'] = True
+            case['cls'] = 'coarse:' + case['cls']
+        return case
     raise RuntimeError('generator did not produce a case')
 
 
 # ------------------------------------------------------------------------------ driving the implementation
-def resolve(s, record=None):
+def resolve(s, record=None, coarse=False):
     from cgsmiles.resolve import MoleculeResolver
-    resolver = MoleculeResolver.from_string(s)
+    resolver = MoleculeResolver.from_string(s, last_all_atom=not coarse)
     if record is not None:
         orig = resolver.squash_atoms
 
@@ -558,7 +609,7 @@ def py_fail_c10(case, sq0, sq1, shared, dis):
                       for u, v, d in G.edges(data=True) if u in m and v in m)
 
     def sig(G, m):
-        return sorted((m[n], G.nodes[n].get('element'), G.nodes[n].get('charge'),
+        return sorted((m[n], G.nodes[n].get('element', G.nodes[n].get('atomname')), G.nodes[n].get('charge'),
                        sum(1 for x in G[n] if G.nodes[x].get('element') == 'H')) for n in m)
 
     def base():
@@ -638,7 +689,23 @@ class C10(common.Prop):
                                  'phi': [['A', 0, 0], ['B', 0, 1], ['B', 1, 2], ['C', 0, 3]],
                                  'owners': [[0, [0]], [1, [1]], [2, [1]], [3, [2]]], 'frag_heavy': 4, 'npairs': 0},
                     'mode': 'star', 'cls': 'bonded-shared-atoms'})
+        # an order-0 bond ('.') on the REMOVED copy of a shared atom, all-atom and one level up (seed C10-7)
+        out.append({'shared': {'s': '{[#A][#B]}.{#A=CC(=O)[O-][!],#B=[!][O-].[Na+]}',
+                               'phi': [['A', 0, 0], ['A', 1, 1], ['A', 2, 2], ['A', 3, 3], ['B', 0, 3], ['B', 1, 4]],
+                               'owners': [[0, [0]], [1, [0]], [2, [0]], [3, [0, 1]], [4, [1]]], 'frag_heavy': 6, 'npairs': 1},
+                    'disjoint': {'s': '{[#A][#B]}.{#A=CC(=O)[$],#B=[$][O-].[Na+]}',
+                                 'phi': [['A', 0, 0], ['A', 1, 1], ['A', 2, 2], ['B', 0, 3], ['B', 1, 4]],
+                                 'owners': [[0, [0]], [1, [0]], [2, [0]], [3, [1]], [4, [1]]], 'frag_heavy': 5, 'npairs': 0},
+                    'mode': 'star', 'cls': 'order0-on-removed-copy'})
+        out.append({'shared': {'s': '{[#A0][#B0]}.{#A0=[#P][#Q][!],#B0=[!][#Q].[#R]}',
+                               'phi': [['A0', 0, 0], ['A0', 1, 1], ['B0', 0, 1], ['B0', 1, 2]],
+                               'owners': [[0, [0]], [1, [0, 1]], [2, [1]]], 'frag_heavy': 4, 'npairs': 1},
+                    'disjoint': {'s': '{[#A0][#B0]}.{#A0=[#P][#Q].[$],#B0=[$].[#R]}',
+                                 'phi': [['A0', 0, 0], ['A0', 1, 1], ['B0', 0, 2]],
+                                 'owners': [[0, [0]], [1, [0]], [2, [1]]], 'frag_heavy': 3, 'npairs': 0},
+                    'mode': 'star', 'coarse': True, 'cls': 'coarse:order0-on-removed-copy'})
         out += [gen_layered(rng) for _ in range(3)]
+        out += [gen_case(rng, force='star', coarse=False, ions=1.0), gen_case(rng, force='chain', coarse=True)]
         return out + [gen_case(rng, force=m) for m in ('star', 'chain', 'clique', 'star', 'chain')]
 
     def generate(self, ctx, n):
@@ -648,13 +715,13 @@ class C10(common.Prop):
         if case.get('kind') == 'layered':
             return run_layered(case)
         try:
-            dis = resolve(case['disjoint']['s'])
+            dis = resolve(case['disjoint']['s'], coarse=case.get('coarse', False))
         except Exception as exc:           # noqa: BLE001
             return {'skip': 'disjoint description raises ' + type(exc).__name__}
         rec = {}
         shared, exc = None, None
         try:
-            shared = resolve(case['shared']['s'], rec)
+            shared = resolve(case['shared']['s'], rec, coarse=case.get('coarse', False))
         except Exception as exc_:          # noqa: BLE001
             exc = type(exc_).__name__
         if 'sq0' not in rec:
